@@ -16,6 +16,7 @@ import (
 
 	"verif/ref/refaddr"
 	"verif/ref/refec"
+	"verif/ref/refscript"
 	"verif/ref/refsighash"
 	"verif/ref/reftx"
 )
@@ -110,6 +111,22 @@ func checkECDSA(sig, pub []byte, digest func(ht uint32) [32]byte, needCompressed
 // verifyInput checks that input i of tx carries a valid, standard spend of prev (key-hash / key-path
 // templates). spent = the outputs spent by all inputs (needed by BIP341). Returns kind, reason.
 func verifyInput(tx *reftx.Tx, i int, spent []reftx.TxOut, minsig bool, cnt map[string]int64) (string, string) {
+	kind, why := verifyInputStruct(tx, i, spent, minsig, cnt)
+	if why != "" {
+		return kind, why
+	}
+	// full reference script verification with every standardness flag (Core's
+	// STANDARD_SCRIPT_VERIFY_FLAGS plus SIGPUSHONLY, which IsStandardTx demands of every scriptSig)
+	ok, serr := refscript.Verify(tx.In[i].ScriptSig, spent[i].PkScript, tx.In[i].Witness, tx, i, spent[i].Value, spent, refscript.AllFlags)
+	if !ok {
+		return kind, "refscript:" + serr.String()
+	}
+	cnt["refscript_verified"]++
+	return kind, ""
+}
+
+// verifyInputStruct: exact key-spend structure + encoding rules + signature over the reference digest.
+func verifyInputStruct(tx *reftx.Tx, i int, spent []reftx.TxOut, minsig bool, cnt map[string]int64) (string, string) {
 	in := &tx.In[i]
 	prev := spent[i]
 	kind := scriptKind(prev.PkScript)
